@@ -163,7 +163,7 @@ def corollary(ctx, g, uname, fname):
 
 
 def single_and_double_specs():
-    classes = list(zoo.EDGE_CLASSES)
+    classes = list(graphs._ECLS)
     placements = [(0, 1), (1, 0), (0, 0)]  # v0 is origin / destination / both
     for c in classes:
         for (i, j) in placements:
@@ -214,7 +214,7 @@ def run(ctx):
     # ---- part 2: random multigraphs ---------------------------------------
     ngraphs = 250 if ctx.tier == "quick" else 2500
     for n in range(ngraphs):
-        spec = graphs.rand_spec(rng, nmax=6, mmax=12, uni_mode="none")
+        spec = graphs.rand_spec(rng, nmax=6, mmax=12, uni_mode="none", ecls=graphs.ECLS_X)
         g = graphs.build(spec)
         if n < 2:
             ctx.sample({"spec": spec, "checked": "every vertex x 3 directions x 3 unknown modes x 7 filters + corollary"})
